@@ -103,7 +103,7 @@ func runHistories(cfg runCfg, res *Result, n int, gen func(i int) History) error
 		return err
 	}
 	defer e.Close()
-	listed := loadFindings(cfg.prop)
+	listed := loadFindings("")
 	if res.KnownActive == nil {
 		res.KnownActive = map[string]string{}
 		res.KnownHits = map[string]int{}
